@@ -81,7 +81,13 @@ MtlScenarios ==
 Scenarios == BwdScenarios \cup MtlScenarios
 
 PreContent(l) == [i \in 1..P0[l].size |-> 10 * l + i]
-Pre0(pre) == [l \in GradLeaves |-> IF l \in pre THEN PreContent(l) ELSE None]
+\* .grad is tracked on every leaf that requires grad AND on the frozen leaf Ee: a parameter that was trained
+\* (its .grad was populated), then frozen with requires_grad_(False) without clearing it, carries a STALE .grad;
+\* it is still "neither a leaf requiring grad nor retaining grad", and a rejected call must leave the stale
+\* .grad alone as well
+Tracked == GradLeaves \cup {Ee}
+NoGradFaults == {"nograd_param", "nograd_shared", "nograd_taskparam"}
+Pre0(pre, stale) == [l \in Tracked |-> IF l \in pre \/ (l = Ee /\ stale) THEN PreContent(l) ELSE None]
 
 \* ------------------------------------------------------------------ the steps of the code, in order
 \* each step: [kind |-> "check", faults |-> set of faults it detects]  or  [kind |-> "write", leaves |-> set]
@@ -116,8 +122,9 @@ WriteUpdate(s, stepIdx, l) ==
          ELSE MtlSharedUpdate(s.feats, s.losses, W(s), l)
 
 Init == /\ \E s \in Scenarios, pre \in {{}, GradLeaves, {A, T1, U1}} :
-              /\ scn = s @@ [pre |-> pre]
-              /\ grad = Pre0(pre)
+            \E stale \in (IF s.fault \in NoGradFaults \cup {"none"} THEN BOOLEAN ELSE {FALSE}) :
+              /\ scn = s @@ [pre |-> pre, stale |-> stale]
+              /\ grad = Pre0(pre, stale)
         /\ pc = 1 /\ outcome = "running"
 
 Step ==
@@ -130,18 +137,18 @@ Step ==
             THEN IF scn.fault \in st.faults
                  THEN outcome' = "raised" /\ UNCHANGED <<grad, pc, scn>>
                  ELSE pc' = pc + 1 /\ UNCHANGED <<grad, outcome, scn>>
-            ELSE /\ grad' = [l \in GradLeaves |-> IF l \in st.leaves THEN Plus(grad[l], WriteUpdate(scn, pc, l)) ELSE grad[l]]
+            ELSE /\ grad' = [l \in Tracked |-> IF l \in st.leaves THEN Plus(grad[l], WriteUpdate(scn, pc, l)) ELSE grad[l]]
                  /\ pc' = pc + 1 /\ UNCHANGED <<outcome, scn>>
 Spec == Init /\ [][Step]_vars
 
 \* ------------------------------------------------------------------ properties
-NothingChanged == (outcome = "raised") => (grad = Pre0(scn.pre))
+NothingChanged == (outcome = "raised") => (grad = Pre0(scn.pre, scn.stale))
 FaultyIsRejected == (outcome = "returned") => (scn.fault = "none")
 ValidIsAccepted  == (outcome = "raised") => (scn.fault # "none")
 \* no write step may precede a check step (the structural reason why NothingChanged holds)
 ChecksBeforeWrites == LET steps == StepsOf(scn) IN
     \A i, j \in DOMAIN steps : (steps[i].kind = "write" /\ steps[j].kind = "check") => j < i
 
-Export == (pc = 1 /\ outcome = "running") => PrintT(<<"SCN", ToJson(scn @@ [pregrad |-> Pre0(scn.pre)])>>)
+Export == (pc = 1 /\ outcome = "running") => PrintT(<<"SCN", ToJson(scn @@ [pregrad |-> Pre0(scn.pre, scn.stale)])>>)
 ASSUME PrintT(<<"STATIC", ToJson([prog |-> P0])>>)
 =============================================================================
